@@ -199,6 +199,7 @@ class Ctx:
         self.env = {}  # name -> object, namespace for known-finding predicates
         self.known = known or []  # list of dict(id, property, harness, obligation, where)
         self.notes = {}
+        self.allow_realise = False  # harnesses with small finite cell domains switch this on
         self.last = self.solver
         self.cross = []  # (obligation, outcome) of sampled second-opinion queries
 
